@@ -77,6 +77,7 @@ Exact(c) ==
      IF r.status = "short" THEN
         LET a == ReadFileAB(c.file, c.cmap) IN
         IF a.status = "done" /\ a.recs = c.recs THEN Vd("DEV", "D_ShortReadAccepted")
+        ELSE IF a.status = "unspec" THEN Vd("SKIP", "unspecified-zone")
         ELSE Vd("FAIL", "accepted-but-spec-rejects(short-content)")
      ELSE Vd("FAIL", "accepted-but-spec-rejects")
 
@@ -85,6 +86,8 @@ Cut(c) ==
   ELSE IF c.prefixok THEN Vd("ok", "")
   ELSE LET a == ReadFileAB(c.file, c.cmap)  r == ReadFile(c.file, c.cmap) IN
        IF r.status = "short" /\ a.recs = c.recs THEN Vd("DEV", "D_ShortReadAccepted")
+       ELSE IF r.status = "unspec" \/ (r.status = "short" /\ a.status = "unspec")
+            THEN Vd("SKIP", "unspecified-zone")     \* e.g. bytes the shipped codec table does not cover
        ELSE Vd("FAIL", "yielded-a-section-that-differs-from-the-intact-file")
 
 (* C10: only the accepted id sequence and where it is rejected *)
